@@ -168,12 +168,13 @@ func mergeConfigDict(opts *options, to, from *Config) Error {
 	}
 
 	ok := false
+	var replaced map[string]value // the named settings dropped by the replace policy
 	if opts.configValueHandling == cfgReplaceValue {
-		old := to.fields.dict()
+		replaced = to.fields.dict()
 		to.fields.d = nil
 		defer func() {
 			if !ok {
-				to.fields.d = old
+				to.fields.d = replaced
 			}
 		}()
 	}
@@ -190,6 +191,11 @@ func mergeConfigDict(opts *options, to, from *Config) Error {
 		if err != nil {
 			return err
 		}
+		if prev, dropped := replaced[k]; dropped && opts.fieldHandlingTree != nil {
+			// per-field options are configured for k or below it: their
+			// subtrees are merged with the old values under their own policy
+			old = replacedMergeTarget(opts, prev, v)
+		}
 		merged, err := mergeValues(opts, old, v)
 		if err != nil {
 			return err
@@ -200,6 +206,36 @@ func mergeConfigDict(opts *options, to, from *Config) Error {
 
 	ok = true
 	return nil
+}
+
+// replacedMergeTarget returns what is still needed of prev, a named setting
+// dropped by the replace policy of its parent, when v is merged in its place
+// with opts: all of it if a per-field option with another policy starts here.
+// If the setting is replaced as well, but per-field options are configured
+// further down, only its named settings that meet named settings of v are of
+// interest: a config holding just these is returned, merging v into it under
+// replace repeats the decision for every one of them. nil: v takes the place.
+func replacedMergeTarget(opts *options, prev, v value) value {
+	if opts.configValueHandling != cfgReplaceValue {
+		return prev
+	}
+	subV, err := v.toConfig(opts)
+	if err != nil || len(subV.fields.dict()) == 0 {
+		return nil
+	}
+	var subPrev *Config
+	if d, dynamic := prev.(*cfgDynamic); dynamic {
+		subPrev = opts.mergeTargets[d]
+	} else if subPrev, err = prev.toConfig(opts); err != nil {
+		subPrev = nil
+	}
+	if subPrev == nil || subPrev.fields == nil || len(subPrev.fields.dict()) == 0 {
+		return nil
+	}
+	c := New()
+	c.metadata = subV.metadata
+	c.fields.d = subPrev.fields.dict()
+	return cfgSub{c}
 }
 
 func mergeConfigArr(opts *options, to, from *Config) Error {
